@@ -59,20 +59,30 @@ fn extension(name: &str) -> Option<&str> {
     Some(ext)
 }
 
+/// An argument as the path it names relative to the scenario root ("" = the root itself).
+pub fn norm(arg: &str) -> String {
+    let mut a = arg;
+    while let Some(r) = a.strip_prefix("./") {
+        a = r;
+    }
+    let a = a.trim_end_matches('/');
+    if a == "." { String::new() } else { a.to_string() }
+}
+
 /// Reference model: arguments in order; a directory contributes its regular files depth-first,
 /// the entries of each directory in byte-wise file-name order.
 pub fn model(s: &Scenario) -> Roles {
     fn walk(prefix: &str, files: &[FileEntry], out: &mut Vec<String>) {
         // children of `prefix` (a directory path without trailing slash)
         let mut names: BTreeSet<String> = BTreeSet::new();
-        let pre = format!("{prefix}/");
+        let pre = if prefix.is_empty() { String::new() } else { format!("{prefix}/") };
         for f in files {
             if let Some(rest) = f.path.strip_prefix(&pre) {
                 names.insert(rest.split('/').next().unwrap().to_string());
             }
         }
         for n in names {
-            let child = format!("{prefix}/{n}");
+            let child = format!("{pre}{n}");
             if files.iter().any(|f| f.path == child) {
                 out.push(child);
             } else {
@@ -82,10 +92,11 @@ pub fn model(s: &Scenario) -> Roles {
     }
     let mut ordered = vec![];
     for a in &s.args {
-        if s.files.iter().any(|f| &f.path == a) {
-            ordered.push(a.clone());
+        let a = norm(a);
+        if s.files.iter().any(|f| f.path == a) {
+            ordered.push(a);
         } else {
-            walk(a, &s.files, &mut ordered);
+            walk(&a, &s.files, &mut ordered);
         }
     }
     let mut r = Roles::default();
@@ -265,6 +276,9 @@ pub fn draw(seed: u64, i: u64, tasks: &[Task], thorough: bool) -> Scenario {
     while dirs.len() < n_dirs {
         let mut d: String = (0..1 + rng.below(4)).map(|_| (b'a' + rng.below(26) as u8) as char).collect();
         d.push_str("dir");
+        if rng.pct(15) {
+            d.insert(0, '.');
+        }
         if used.insert(d.clone()) {
             dirs.push(d);
         }
@@ -284,7 +298,7 @@ pub fn draw(seed: u64, i: u64, tasks: &[Task], thorough: bool) -> Scenario {
         } else {
             let d = &dirs[choice - 1];
             dir_used[choice - 1] = true;
-            let sub = if rng.pct(25) { format!("{d}/{}sub", (b'a' + rng.below(26) as u8) as char) } else { d.clone() };
+            let sub = if rng.pct(25) { format!("{d}/{}{}sub", if rng.pct(15) { "." } else { "" }, (b'a' + rng.below(26) as u8) as char) } else { d.clone() };
             files.push(FileEntry { path: format!("{sub}/{name}"), content, meant });
         }
     }
@@ -297,6 +311,20 @@ pub fn draw(seed: u64, i: u64, tasks: &[Task], thorough: bool) -> Scenario {
     for k in (1..args.len()).rev() {
         let j = rng.below(k as u64 + 1) as usize;
         args.swap(k, j);
+    }
+    // spellings of the same path; sometimes the whole scenario root is the only argument
+    if rng.pct(6) {
+        args = vec![rng.pick(&[".", "./", "././"]).to_string()];
+    } else {
+        for a in args.iter_mut() {
+            let is_dir = !files.iter().any(|f: &FileEntry| &f.path == a);
+            match rng.below(6) {
+                0 => *a = format!("./{a}"),
+                1 if is_dir => a.push('/'),
+                2 if is_dir => *a = format!("./{a}/"),
+                _ => {}
+            }
+        }
     }
     let mut creation_order: Vec<usize> = (0..files.len()).collect();
     for k in (1..creation_order.len()).rev() {
@@ -581,6 +609,9 @@ struct Tally {
     junk: u64,
     upper: u64,
     hidden: u64,
+    dot_dirs: u64,
+    root_arg: u64,
+    spelled: u64,
     dir_modes: BTreeMap<String, u64>,
     by_equivalence: BTreeMap<String, u64>,
     distinct: BTreeSet<String>,
@@ -614,7 +645,7 @@ pub fn main(args: &Args) {
                 break;
             }
             let s = draw(seed, i, &tasks, thorough);
-            let has_dir = s.args.iter().any(|a| !s.files.iter().any(|f| &f.path == a));
+            let has_dir = s.args.iter().any(|a| !s.files.iter().any(|f| f.path == norm(a)));
             let mut local = Tally::default();
             local.scenarios = 1;
             let roles = model(&s);
@@ -638,6 +669,15 @@ pub fn main(args: &Args) {
             }
             if s.files.iter().any(|f| f.meant != "junk" && f.path.rsplit('/').next().unwrap().starts_with('.')) {
                 local.hidden += 1;
+            }
+            if s.files.iter().any(|f| f.path.split('/').rev().skip(1).any(|d| d.starts_with('.'))) {
+                local.dot_dirs += 1;
+            }
+            if s.args.iter().any(|a| norm(a).is_empty()) {
+                local.root_arg += 1;
+            }
+            if s.args.iter().any(|a| *a != norm(a)) {
+                local.spelled += 1;
             }
             *local.by_equivalence.entry(s.equivalence.clone()).or_insert(0) += 1;
             local.distinct.insert(format!("{:?}|{:?}|{}", s.args, s.files.iter().map(|f| (&f.path, &f.meant)).collect::<Vec<_>>(), s.task_id));
@@ -678,6 +718,9 @@ pub fn main(args: &Args) {
             t.junk += local.junk;
             t.upper += local.upper;
             t.hidden += local.hidden;
+            t.dot_dirs += local.dot_dirs;
+            t.root_arg += local.root_arg;
+            t.spelled += local.spelled;
             for (k, v) in local.dir_modes {
                 *t.dir_modes.entry(k).or_insert(0) += v;
             }
@@ -748,6 +791,9 @@ pub fn main(args: &Args) {
             "scenarios_with_junk_files": tally.junk,
             "scenarios_with_upper_case_names": tally.upper,
             "scenarios_with_hidden_role_files": tally.hidden,
+            "scenarios_with_dot_directories": tally.dot_dirs,
+            "scenarios_with_root_as_argument": tally.root_arg,
+            "scenarios_with_respelled_arguments": tally.spelled,
             "scenarios_where_model_expects_an_error": tally.expected_errors,
             "scenarios_by_equivalence": tally.by_equivalence,
             "directory_order_faults_injected_runs": tally.dir_modes,
@@ -802,9 +848,12 @@ fn minimise(bins: &Binaries, mut r: Replay, scratch: &Mutex<Scratch>) -> Replay 
         let Some(idx) = c.scenario.files.iter().position(|f| f.path == p) else { continue };
         c.scenario.files.remove(idx);
         c.scenario.creation_order = (0..c.scenario.files.len()).collect();
-        c.scenario.args.retain(|a| a != &p);
+        c.scenario.args.retain(|a| norm(a) != p);
         // a directory argument that became empty would make anthem fail for another reason
-        c.scenario.args.retain(|a| c.scenario.files.iter().any(|f| &f.path == a || f.path.starts_with(&format!("{a}/"))));
+        c.scenario.args.retain(|a| {
+            let n = norm(a);
+            n.is_empty() || c.scenario.files.iter().any(|f| f.path == n || f.path.starts_with(&format!("{n}/")))
+        });
         tries += 1;
         if let Some(d) = still_fails(bins, &c, scratch) {
             r = c;
